@@ -505,6 +505,82 @@ def r5(ctx):
              key='plain-mode-is-default', what='get_consensus_dictionaries: the dove-safe branch is taken although dove_safe is False')
 
 
+@rule('C13', 'C13-R6', 'the consensus is computed from the molecule as it is now: a result saved by get_consensus (or by what it calls) is discarded when a fragment joins '
+                       'the molecule (`_add_fragment` resets every such field)')
+def r6(ctx):
+    from . import shared
+    shared.memo_invalidation(ctx, 'C13-R6', MOLECULE, 'Molecule', [FN.split('.')[-1]], what='Molecule.get_consensus')
+
+
+@rule('C13', 'C13-R7', 'what a fragment hands to the molecule tally is the arbitrated call: every value of the dictionary Fragment.get_consensus returns is the result of '
+                       'pick_best_base_call (a (base, quality) pair) - a per-mate dictionary passed through as it is carries (base, quality, reference base) records, the '
+                       'tally fails to unpack them and the fragment silently contributes no vote')
+def r7(ctx):
+    f = ctx.fn(FRAGMENT, 'Fragment.get_consensus')
+    env = {}
+    for a in walk_no_nested(f):
+        if isinstance(a, ast.Assign):
+            for t in a.targets:
+                for n_ in ast.walk(t):
+                    if isinstance(n_, ast.Name):
+                        env.setdefault(n_.id, []).append(a.value)
+    rets = [r for r in walk_no_nested(f) if isinstance(r, ast.Return) and r.value is not None]
+    ctx.need('C13-R7', len(rets), 1, 'returns of Fragment.get_consensus')
+    bad, unsure = [], []
+    for r in rets:
+        vals = [r.value]
+        if isinstance(r.value, ast.Name):
+            vals = env.get(r.value.id, [r.value])
+        for v in vals:
+            if isinstance(v, ast.DictComp):
+                inner = v.value
+                if isinstance(inner, ast.Call) and last_name(dotted(inner.func) or '') == 'pick_best_base_call':
+                    continue
+                unsure.append((r, v))
+            elif (isinstance(v, ast.Dict) and not v.keys) or (isinstance(v, ast.Call) and dotted(v.func) == 'dict' and not v.args and not v.keywords):
+                continue
+            elif isinstance(v, ast.Call) and last_name(dotted(v.func) or '') == 'get_consensus_dictionaries' or (isinstance(v, ast.Subscript) and isinstance(v.value, ast.Call)
+                                                                                                             and last_name(dotted(v.value.func) or '') == 'get_consensus_dictionaries'):
+                bad.append((r, v))
+            else:
+                unsure.append((r, v))
+    for r, v in bad[:1]:
+        ctx.emit('C13-R7', False, FRAGMENT, r, f'Fragment.get_consensus returns `{src(r.value)[:50]}`, a per-mate dictionary of get_consensus_dictionaries: its records are not (base, quality) pairs, '
+                 f'Molecule.get_consensus cannot unpack them (ValueError, swallowed) and the fragment casts no vote', key='fragment-calls-arbitrated', what='Fragment.get_consensus returns un-arbitrated per-mate calls')
+    if not bad:
+        ctx.emit('C13-R7', not unsure, FRAGMENT, f, f'{len(rets)} return(s): every value is a pick_best_base_call result' if not unsure else f'cannot tell the shape of `{src(unsure[0][1])[:60]}`',
+                 key='fragment-calls-arbitrated', undecided=bool(unsure))
+
+
+@rule('C13', 'C13-R8', 'the caller decides which bases may vote: the options of Fragment.get_consensus that have a parameter of the same name in '
+                       'get_consensus_dictionaries (dove_safe, only_include_refbase, ...) are forwarded as given, not combined with fragment state (a mate-overlap '
+                       'restriction that silently switches itself off lets bases outside the safe span vote)')
+def r8(ctx):
+    f = ctx.fn(FRAGMENT, 'Fragment.get_consensus')
+    params = {a.arg for a in f.args.args + f.args.kwonlyargs}
+    calls = [c for c in walk_no_nested(f) if isinstance(c, ast.Call) and last_name(dotted(c.func) or '') == 'get_consensus_dictionaries']
+    ctx.need('C13-R8', len(calls), 1, 'calls of get_consensus_dictionaries in Fragment.get_consensus')
+    bad = []
+    n = 0
+    for c in calls:
+        for k in c.keywords:
+            if k.arg in params:
+                n += 1
+                v = k.value
+                if isinstance(v, ast.Name):
+                    dd = [a.value for a in walk_no_nested(f) if isinstance(a, ast.Assign) and len(a.targets) == 1 and src(a.targets[0]) == v.id]
+                    if v.id != k.arg and len(dd) == 1:
+                        v = dd[0]
+                if not (isinstance(v, ast.Name) and v.id == k.arg):
+                    bad.append((c, k, v))
+    ctx.need('C13-R8', n, 1, 'options forwarded by name')
+    for c, k, v in bad[:2]:
+        ctx.emit('C13-R8', False, FRAGMENT, c, f'Fragment.get_consensus forwards `{k.arg}={src(v)[:60]}` instead of the `{k.arg}` it was given: the restriction the caller asked for is not '
+                 f'applied to every fragment', key=f'option-forwarded:{k.arg}', what=f'Fragment.get_consensus alters the option {k.arg} before forwarding it')
+    if not bad:
+        ctx.emit('C13-R8', True, FRAGMENT, calls[0], f'{n} option(s) forwarded to get_consensus_dictionaries as given', key='option-forwarded')
+
+
 META = {
     'text': ('Decides clause-level necessary conditions: both returns select positions and bases with the same mask, and that mask equals "maximum vote '
              'attained exactly once" on every abstract vote row in {0..3}^5 (numpy idioms interpreted row-wise); N calls never reach the vote update; each '
